@@ -382,10 +382,69 @@ def c_generic(ctx):
     keep_only(ctx, lambda v: not v["kind"].startswith("outcome:"))
 
 
+def witness_hang(ctx):
+    """The witness of the theorem C05_refuted_* (coq/SM/ExampleHang.v) replayed on the implementation: the same
+    document, the same two actions; the implementation must still exceed the step budget there and its
+    pre-state/action must still be the ones the theorem speaks about."""
+    import yaml
+    import batch
+    import jsl
+    import mk_example_hang as M
+    import tocoq
+    import trace
+    d = yaml.safe_load(M.DSL)
+    cfg = jsl.with_cfg(jsl.load_config(), early=True, trunc_active=False)
+    tracer = trace.Tracer()
+    tracer.want_pre = True
+    it = iter([0, 1])
+    env, end, actions, et = batch.run_episode(tracer, d, cfg, lambda e: next(it, 1), max_steps=2)
+    ok = (end == "budget")
+    same = False
+    if tracer.records:
+        r = tracer.records[-1]
+        txt = (ctx.verif / "coq" / "SM" / "ExampleHang.v").read_text()
+        same = ("Definition hang_pre : state := %s." % tocoq.state(r.pre)) in txt and \
+               ("Definition hang_inst : inst := %s." % tocoq.inst(r.codec.inst_sx)) in txt and \
+               ("Definition hang_trs : list transition := %s." % tocoq.transitions(r.trs)) in txt
+    ctx.coverage["refutation_witness"] = {"theorem": "C05_refuted_step / C05_refuted_reachable", "implementation_end": end,
+                                          "same_pre_state_and_action_as_theorem": same}
+    if not ok or not same:
+        ctx.broken_correspondence.append(
+            "the witness of C05_refuted (SM/ExampleHang.v) no longer matches the implementation: end=%s, same input=%s"
+            % (end, same))
+
+
+def witness_deadlock(ctx):
+    """The witness of the theorem C11_refuted (coq/SM/ExampleDeadlock.v) replayed on the implementation."""
+    import batch
+    import jsl
+    import tocoq
+    import trace
+    w = json.loads((ctx.verif / "harness" / "example_deadlock.json").read_text())
+    cfg = jsl.with_cfg(jsl.load_config(), early=False, trunc_active=False)
+    tracer = trace.Tracer()
+    tracer.want_pre = True
+    it = iter(w["actions"])
+    env, end, actions, et = batch.run_episode(tracer, w["dsl"], cfg, lambda e: next(it, 1), max_steps=len(w["actions"]))
+    same = False
+    if tracer.records:
+        r0 = tracer.records[0]
+        txt = (ctx.verif / "coq" / "SM" / "ExampleDeadlock.v").read_text()
+        same = ("Definition dl_inst : inst := %s." % tocoq.inst(r0.codec.inst_sx)) in txt and \
+               ("Definition dl_init : state := %s." % tocoq.state(r0.pre)) in txt
+    ctx.coverage["refutation_witness_deadlock"] = {"theorem": "C11_refuted", "implementation_end": end,
+                                                   "same_instance_and_initial_state_as_theorem": same}
+    if end != w["end"] or not same:
+        ctx.broken_correspondence.append(
+            "the witness of C11_refuted (SM/ExampleDeadlock.v) no longer matches the implementation: end=%s, same input=%s"
+            % (end, same))
+
+
 def c05(ctx):
     sm_check(ctx, n_quick=240, custom_p=0.2)
     # truncation/termination are normal ends; everything else is a totality violation
     keep_only(ctx, lambda v: not (v["kind"] == "outcome:maxsteps"))
+    witness_hang(ctx)
 
 
 def c11(ctx):
@@ -401,6 +460,8 @@ def c11(ctx):
             return class_member(v)
         return False
     keep_only(ctx, relevant)
+    witness_hang(ctx)
+    witness_deadlock(ctx)
     ctx.assumptions.append("configuration class of C11 decided on the compiled instance: every buffer capacity >= #jobs and "
                            "(early transport disabled or all post-buffers flex or #AGV >= #jobs)")
 
